@@ -54,6 +54,18 @@ func probeMain(args []string) int {
 	return 0
 }
 
+// probegate <file> <gate> [args...]: a probe that fails until the gate file exists
+func probegateMain(args []string) int {
+	if len(args) < 2 {
+		return 9
+	}
+	probeMain(append([]string{args[0], "0"}, args[2:]...))
+	if _, err := os.Stat(args[1]); err != nil {
+		return 1
+	}
+	return 0
+}
+
 // printfile <file> [stderr-file]: prints the file to stdout (and the other to stderr)
 func printfileMain(args []string) int {
 	if len(args) > 1 {
@@ -77,6 +89,7 @@ func printfileMain(args []string) int {
 
 func init() {
 	core.Sub["probe"] = probeMain
+	core.Sub["probegate"] = probegateMain
 	core.Sub["printfile"] = printfileMain
 }
 
@@ -525,13 +538,28 @@ func c11Outputs(c *core.Ctx) {
 		// gate: the last step fails in the first run (so that a retry re-executes it) and succeeds afterwards
 		gate := filepath.Join(h.root, "gate")
 		last := fmt.Sprintf("sh -c %s", yq(fmt.Sprintf("%s probe %s 0; test -e %s", self, filepath.Join(h.root, "late.json"), gate)))
-		text := "handlerOn:\n  exit:\n    command: " + yq(probe("onexit", 0)) + "\n  failure:\n    command: " + yq(probe("onfailure", 0)) + "\n  success:\n    command: " + yq(probe("onsuccess", 0)) +
+		// the captured value as a command ARGUMENT ($CAPTURED expanded by blackdagger, not by
+		// the consumer's shell), and the same name also given a default in the DAG's env:
+		asArg := strings.HasPrefix(class, "size-") && len(want) > 0 && len(want) <= 4097
+		envDefault := idx%8 >= 4
+		nextCmd := probe("next", 0)
+		if asArg {
+			nextCmd += " $CAPTURED"
+			last = fmt.Sprintf("%s probegate %s %s $CAPTURED", self, filepath.Join(h.root, "late.json"), gate)
+			c.Count("consumers_taking_the_value_as_argument", 1)
+		}
+		head := ""
+		if envDefault {
+			head = "env:\n  - CAPTURED: dag-level-default\n"
+			c.Count("cases_with_same_name_in_env_section", 1)
+		}
+		text := head + "handlerOn:\n  exit:\n    command: " + yq(probe("onexit", 0)) + "\n  failure:\n    command: " + yq(probe("onfailure", 0)) + "\n  success:\n    command: " + yq(probe("onsuccess", 0)) +
 			"\nsteps:\n  - name: produce\n    command: " + yq(producer) + "\n    output: CAPTURED\n" + produceExtra +
-			"  - name: next\n    command: " + yq(probe("next", 0)) + "\n    depends: [produce]\n" +
+			"  - name: next\n    command: " + yq(nextCmd) + "\n    depends: [produce]\n" +
 			"  - name: middle\n    command: \"true\"\n    depends: [next]\n" +
 			"  - name: late\n    command: " + last + "\n    depends: [middle]\n"
 		_ = os.WriteFile(loc, []byte(text), 0644)
-		desc := map[string]any{"class": class, "bytes": len(content), "stderr_too": withStderr, "content": clip(string(content), 200)}
+		desc := map[string]any{"class": class, "bytes": len(content), "stderr_too": withStderr, "content": clip(string(content), 200), "as_argument": asArg, "same_name_in_env_section": envDefault}
 		c.Begin(idx, desc)
 		c.Eval(1)
 		c.SetAdd("output_classes", class)
@@ -549,6 +577,9 @@ func c11Outputs(c *core.Ctx) {
 		}
 		if withStderr {
 			sizeClass += "+stderr"
+		}
+		if envDefault {
+			sizeClass += "+env-default"
 		}
 		if retried {
 			sizeClass += "+retried-producer"
@@ -570,6 +601,13 @@ func c11Outputs(c *core.Ctx) {
 					c.Count("consumers_read", 1)
 					if !ok || got != want {
 						v("output-value|"+phase+"|"+sizeClass, fmt.Sprintf("%s: %s sees $CAPTURED = %q (%d bytes, set=%v), expected the producer's trimmed stdout %q (%d bytes)", phase, f, clip(got, 120), len(got), ok, clip(want, 120), len(want)))
+					}
+					if asArg && (f == "next" || f == "late") {
+						c.Count("obligations", 1)
+						c.Count("argument_consumers_read", 1)
+						if a := ps[len(ps)-1].Args; len(a) < 2 || a[len(a)-1] != want {
+							v("output-argument|"+phase+"|"+sizeClass, fmt.Sprintf("%s: %s was given the arguments %q for `... $CAPTURED`, expected the producer's trimmed stdout %q (%d bytes) as the last one", phase, f, clip(fmt.Sprint(a), 160), clip(want, 120), len(want)))
+						}
 					}
 					os.Remove(filepath.Join(h.root, f+".json"))
 				}
@@ -609,6 +647,8 @@ func c11Body(c *core.Ctx) {
 		c11Process(c)
 	case "outputs":
 		c11Outputs(c)
+	case "recorded":
+		c11Recorded(c)
 	}
 }
 
@@ -619,8 +659,9 @@ func init() {
 				{Name: "strings", Mode: "strings", Shards: 8, Timeout: 60 * time.Minute},
 				{Name: "process", Mode: "process", Shards: 12, Timeout: 60 * time.Minute},
 				{Name: "outputs", Mode: "outputs", Shards: 12, Timeout: 60 * time.Minute},
+				{Name: "recorded", Mode: "recorded", Shards: 12, Timeout: 60 * time.Minute},
 			}
 		},
-		Rule:        "Parameter strings are BUILT from the documented syntax (1-4 tokens: bare word, \"quoted value\" with \\\" escapes, NAME=value, NAME=\"quoted value\"; values from a pool with spaces, leading/trailing blanks, quotes inside and at the edges, '=', backslashes, unicode, empty, glob and shell characters, 2 kB), so the expected values are known by construction. strings pass: 24000 (400000) strings through dag.Load as start parameters or as the definition's defaults: DAG.Params, the exported $1..$n and $NAME, and the round trip retry/restart perform (reload with model.Params(recorded)). process pass: 96 (1500) cases with the real blackdagger binary: steps and handlers are probe child processes that dump the environment they see; start -p (as client.Start hands parameters over) or defaults, then a second run with other parameters and retry --req of the FIRST run, then restart; every probe must see exactly the given values. outputs pass: 88 (1200) cases: a producer child prints known bytes (sizes 0, 1, 2, 100, 4095-4097, 65535-65537, 100000; whitespace around/inside; quotes, = $ \\, unicode, shell characters; optionally also stderr), consumers (next step, a later step, onFailure/onSuccess/onExit handlers, the re-executed step of a retry, and of a retry of that retry's record) dump $CAPTURED which must equal the trimmed stdout; the producing run must end within 60 s. Non-trivial/distinct = distinct strings / cases.",
+		Rule:        "Parameter strings are BUILT from the documented syntax (1-4 tokens: bare word, \"quoted value\" with \\\" escapes, NAME=value, NAME=\"quoted value\"; values from a pool with spaces, leading/trailing blanks, quotes inside and at the edges, '=', backslashes, unicode, empty, glob and shell characters, 2 kB), so the expected values are known by construction. strings pass: 24000 (400000) strings through dag.Load as start parameters or as the definition's defaults: DAG.Params, the exported $1..$n and $NAME, and the round trip retry/restart perform (reload with model.Params(recorded)). process pass: 96 (1500) cases with the real blackdagger binary: steps and handlers are probe child processes that dump the environment they see; start -p (as client.Start hands parameters over) or defaults, then a second run with other parameters and retry --req of the FIRST run, then restart; every probe must see exactly the given values. outputs pass: 88 (1200) cases: a producer child prints known bytes (sizes 0, 1, 2, 100, 4095-4097, 65535-65537, 100000; whitespace around/inside; quotes, = $ \\, unicode, shell characters; optionally also stderr), consumers (next step, a later step, onFailure/onSuccess/onExit handlers, the re-executed step of a retry, and of a retry of that retry's record) dump $CAPTURED which must equal the trimmed stdout; the producing run must end within 60 s; for plain values the consumers also take $CAPTURED as a command ARGUMENT, in half the cases with the same name given a default in the DAG's env: section. recorded pass: 700 (12000) in-process agent runs (scripted executor) of 2-10 parallel producers that capture distinct known values (1 B - 90 kB) and finish together, and a dependent step that fails: every value must be seen by the dependent step, be in the final record read back through a fresh jsondb store, and be seen by the step a retry (RetryTarget, environment cleared first as in a new process) re-executes. Non-trivial/distinct = distinct strings / cases.",
 		Assumptions: []string{"'$' and backticks are not generated inside parameter values (environment and command substitution are documented features of start parameters)", "newlines inside a parameter are not generated; captured outputs stay below the kernel's 128 KiB per-string exec limit"}})
 }
